@@ -6,7 +6,7 @@ CONFIG = {
     "lean_props": "J5V/Props/C07.lean",
     "extract": ["setext", "imports"],
     "streams": [
-        stream("total", {"quick": 4800, "thorough": 48000, "search": 4800}, {"quick": 16, "thorough": 16, "search": 16},
+        stream("total", {"quick": 4800, "thorough": 24000, "search": 4800}, {"quick": 16, "thorough": 16, "search": 16},
                "the 16 shards share (round-robin) the FULL rule x field-type matrix (each documented rule - pattern / minLength / maxLength / const / "
                "minimum / maximum / exclusiveMinimum / exclusiveMaximum / multipleOf with small and format-boundary literals / "
                "minProperties / maxProperties / in / notIn / minItems / maxItems / uniqueItems / minPairs / maxPairs - on each field type "
@@ -15,9 +15,9 @@ CONFIG = {
                "documented-but-doubtful construct (`sem-*` / `valid-*`: unknown type / package / import / attribute / block, duplicate "
                "field / type / option / method / event / summary, required+optional, enum vs message mix-ups, bad literals, path parameter "
                "without field, method without request / verb, topic shapes, entity shapes, wrong package, empty file, inline-name capture, "
-               "self reference, README array form, ext.singleForm, file-level import cycle), then random inputs: 20 % random bytes / ASCII "
-               "soup / token soup, 40 % token-level mutations (delete / duplicate / swap / replace / insert / truncate) of valid generated "
-               "files, 20 % mutated semantic cases, 20 % valid generated packages with rules (half of them bundles of up to 3 packages with imports "
+               "self reference, README array form, ext.singleForm, file-level import cycle, imports of every shape: version element first / only / in the middle / missing, one element, sub-package, own package, with alias), then random inputs: 20 % random bytes / ASCII "
+               "soup / token soup, 40 % token-level mutations (delete / duplicate / swap / replace / insert / truncate / reorder the elements of a dotted name) of valid generated "
+               "files, 20 % mutated semantic cases (a quarter of them random import statements of 1-4 elements out of v1 v2 v10 foo bar thing service …, plain / aliased / file path, used or not), 20 % valid generated packages with rules (half of them bundles of up to 3 packages with imports "
                "and same-named types in two packages), ~9 % abstract bundles that must be REJECTED (op `total.neg`: wrong package declaration, enum "
                "default filter naming no option, non-list-shaped list method; the model answers from the abstract bundle). Each input goes through CompilePackage, "
                "LintFile and LintAll under recover + 30 s timeout (fatal errors are attributed by the engine through per-op flushing). "
@@ -40,6 +40,19 @@ CONFIG = {
         "proved (the full statement AcceptsAndLinks is refuted on the model by the recorded capture witness, C07_accepts_counterexample)",
     ],
 }
+
+# --- the walker part (j5s source text -> SourceFile: BCL walker + j5parse), see checks/C07W.py ---
+import importlib.util as _ilu
+_spec = _ilu.spec_from_file_location("check_C07W", os.path.join(os.path.dirname(os.path.abspath(__file__)), "C07W.py"))
+_w = _ilu.module_from_spec(_spec)
+_spec.loader.exec_module(_w)
+CONFIG["lean_props"] = ["J5V/Props/C07.lean", "J5V/Props/C07Walker.lean"]
+CONFIG["extract"] = CONFIG["extract"] + _w.CONFIG["extract"]
+CONFIG["streams"] = CONFIG["streams"] + _w.CONFIG["streams"]
+CONFIG["trusted_base"] = [t for t in CONFIG["trusted_base"] if "walker" not in t or "protocompile" not in t] + [
+    "protocompile's linker is exercised by the stream, not modelled (a spec-level Link model stands in)"] + _w.CONFIG["trusted_base"][1:]
+CONFIG["assumptions"] = CONFIG["assumptions"] + _w.CONFIG.get("assumptions", [])
+
 
 def judge_disagreement(d):
     # a model `ok` where the real compiler rejects or crashes is a concrete acceptance failure
